@@ -588,6 +588,7 @@ run_line (char *line)
 	else if (!strcmp (tok [0], "tmpenv")) op_tmpenv (tok, ntok) ;
 	else if (!strcmp (tok [0], "shortio")) op_shortio (tok, ntok) ;
 	else if (!strcmp (tok [0], "failopen")) op_failopen (tok, ntok) ;
+	else if (!strcmp (tok [0], "second")) op_second (tok, ntok) ;
 	else if ((!strcmp (tok [0], "getmeta") || !strcmp (tok [0], "setcues")) && ntok >= 2) op_meta (tok, ntok) ;
 	else if (!strcmp (tok [0], "cseek")) op_cseek (tok, ntok) ;
 	else if (!strcmp (tok [0], "byterate") || !strcmp (tok [0], "fdpos")) op_query (tok, ntok) ;
